@@ -281,6 +281,8 @@ def free_scenarios(tier="quick"):
         for sc in scs:
             if sc["name"].startswith("hotkey"):
                 sc["opsPer"] *= 8
+            if sc["name"] == "sweeprace":
+                sc["opsPer"] *= 4
     return scs
 
 
@@ -308,7 +310,7 @@ def _free_scenarios(K6):
          "maxCostOps": False, "ttls": [], "costs": [1], "ample": True, "sleep": False},
         {"name": "hotkey-collide", "cfg": _hc([1, 2], "CollHash", "CollConf", MaxCost=1000, BufCap=64), "goroutines": 12, "opsPer": 250,
          "clear": False, "maxCostOps": False, "ttls": [1, 5], "costs": [1], "ample": True, "sleep": False},
-        {"name": "sweeprace", "cfg": _hc([1, 2, 3], MaxCost=100000, BufCap=64, D=1), "goroutines": 6, "opsPer": 400, "clear": False,
+        {"name": "sweeprace", "cfg": _hc([1, 2, 3], MaxCost=100000, BufCap=64, D=1), "goroutines": 6, "opsPer": 150, "clear": False,
          "maxCostOps": False, "ttls": [1, 1, 2, 0, 30], "costs": [1], "ample": True, "sleep": True, "pattern": "sweeprace"},
         {"name": "refuse", "cfg": _hc(K6, MaxCost=8, BufCap=4, RefuseVals=list(range(3, 4000, 3))), "goroutines": 4, "opsPer": 200, "clear": False,
          "maxCostOps": False, "ttls": [], "costs": [1, 2], "ample": False, "sleep": False},
